@@ -503,3 +503,11 @@ def run_shard(spec_, res):
 
 def replay(case, res):
     one(case["spec"], tuple(tuple(d) for d in case["devs"]), None, res, "replay", instr_points=case.get("instr_points", True))
+
+
+def coverage_extra(res):
+    """Executions cut short by the wall-clock watchdog or the step cap decide nothing; too many of them make the run inconclusive."""
+    cut = res.counters.get("watchdog_or_step_cap", 0)
+    if cut and cut * 100 > res.counters.get("schedules", 0):
+        res.inconc(f"{cut} of {res.counters.get('schedules', 0)} executions were cut short by the watchdog / step cap")
+    return {"executions_cut_short": cut}
